@@ -371,7 +371,7 @@ def subchecks():
     heavy = ("conv2d", "max_pool2d", "avg_pool2d")
     for name, strat, lhs, rhs, loose in IDENTITIES:
         q = 150 if name.startswith(heavy) else 250
-        subs.append(SubCheck(name, make_check(name, lhs, rhs, loose), strat, quick=q, thorough=3000, shards_quick=1,
+        subs.append(SubCheck(name, make_check(name, lhs, rhs, loose), strat, quick=2 * q, thorough=3000, shards_quick=1,
                              shards_thorough=4))
     subs.append(SubCheck("Neuron=Linear(n,1)", check_neuron, neuron_cases, quick=150, thorough=2000))
     subs.append(SubCheck("Sequential=composition", check_seq, seq_cases, quick=150, thorough=2000))
